@@ -18,6 +18,10 @@ type Delivered struct {
 	Resp     proxy.CommitResponse
 	BodyHash []byte // hash of the body including the response (what validators sign)
 	Phase    string // "", "bootstrap"
+	// the application processed the block but its reply never reached Babble (the
+	// call returned an error): Dig0 is the hash of the body as handed over
+	LostReply bool
+	Dig0      []byte
 }
 
 type VApp struct {
@@ -31,6 +35,8 @@ type VApp struct {
 	restores  [][]byte
 	states    []state.State
 	failNext  bool
+	loseReply int  // > 0: the reply to the k-th next commit without internal transactions is lost
+	lostFired bool
 	failState bool // the state-change handler reports an error (the node's state must change all the same)
 	onCommit  func(d *Delivered)
 }
@@ -74,6 +80,20 @@ func (a *VApp) CommitBlock(block hg.Block) (proxy.CommitResponse, error) {
 	a.w.NoteBody(block.Index(), bh)
 	a.log = append(a.log, d)
 	a.snapshots[block.Index()] = append([]byte{}, a.stateHash...)
+	if a.loseReply > 0 && len(block.InternalTransactions()) == 0 {
+		a.loseReply--
+		if a.loseReply == 0 {
+			// the application did its part; the answer is lost on the way back
+			last := &a.log[len(a.log)-1]
+			last.LostReply = true
+			last.Dig0, _ = block.Body.Hash()
+			a.lostFired = true
+			if a.onCommit != nil {
+				a.onCommit(last)
+			}
+			return proxy.CommitResponse{}, fmt.Errorf("vapp: the reply to the commit of block %d was lost", block.Index())
+		}
+	}
 	if a.onCommit != nil {
 		a.onCommit(&a.log[len(a.log)-1])
 	}
